@@ -79,7 +79,7 @@ int main(int argc, char **argv) {
               "c is seeded with probes for leftovers: Query, Emit, QueryLargeTlv(icon) after the platform swapped the icon, Discover with generation 0 from a new station. "
               "non-trivial = h transmitted >= 2 frames and recorded an observation or cached an icon, and c elicits >= 2 transmissions; distinct = digest of the case";
     HistWeights wh;
-    wh.commands_from_active_only = false; wh.probe = 6; wh.qlt = 4; wh.seticon = 1; wh.nstations = 4; wh.raw = 1;
+    wh.commands_from_active_only = false; wh.pburst = 1; wh.probe = 6; wh.qlt = 4; wh.seticon = 1; wh.nstations = 4; wh.raw = 1;
     HistWeights wc = wh;
     wc.reset = 1;
     auto gen = rc::gen::exec([=] {
